@@ -940,14 +940,16 @@ macro_rules! rel_vec {
                 let ph = sp.normalize();
                 let ang: $S = [0.05, 0.3, 1.0, 2.0, 2.8, 1.5][$r.below(6) as usize];
                 let a = ah0 * (0.5 + (unit_f64($r) * 3.5) as $S);
-                // one draw in four: exactly opposite directions with a different length (the path is a half circle in some plane)
-                let b = if $r.below(4) == 0 { a * [-2.0 as $S, -0.5, -4.0][$r.below(3) as usize] }
-                        else { (ah0 * ang.cos() + ph * ang.sin()) * (0.5 + (unit_f64($r) * 3.5) as $S) };
+                // every draw: a general pair, and exactly opposite directions with a different length (the path is a half circle in some plane)
+                let bo = a * [-2.0 as $S, -0.5, -4.0][$r.below(3) as usize];
+                let bg = (ah0 * ang.cos() + ph * ang.sin()) * (0.5 + (unit_f64($r) * 3.5) as $S);
+                for b in [bg, bo] {
                 let rs: Vec<$V> = (0..=8).map(|j| a.slerp(b, j as $S / 8.0)).collect();
                 $o.emit(json!({"k": "rel", "op": "vslerp8", "f": $fm, "ty": $ty, "a": $wv(&a), "b": $wv(&b), "ah": $wv(&a.normalize()), "bh": $wv(&b.normalize()),
                     "la": $w(a.length()), "lb": $w(b.length()),
                     "r": rs.iter().map(|x| $wv(x)).collect::<Vec<_>>(), "d": rs.iter().map(|x| $wv(&x.normalize())).collect::<Vec<_>>(),
                     "l": rs.iter().map(|x| $w(x.length())).collect::<Vec<_>>()}));
+                }
             }
         }
     }};
@@ -1371,7 +1373,18 @@ fn rec_swz(o: &mut Out, r: &mut Rng, draws: u64) {
                     for i in 0..k { let j = i + r.below((n - i) as u64) as usize; idx.swap(i, j); }
                     let nm: Vec<&str> = idx[..k].iter().map(|i| L[*i]).collect();
                     let name: String = nm.concat();
-                    let rhs: Vec<u64> = (0..k).map(|_| rb(r)).collect();
+                    // replacement lanes: random bit patterns, or (a quarter of the time) values that COMPARE equal to the lanes they replace but
+                    // differ in bits -- the other zero, for floats -- or are the very same bits: a setter that skips "unchanged" lanes shows up
+                    let cur = v.to_bits();
+                    let fl = <<$V as TV>::S as Scalar>::SC.is_float();
+                    let twin = r.below(4) == 0;
+                    let rhs: Vec<u64> = (0..k).map(|i| {
+                        let c = cur[idx[i]];
+                        if !twin { rb(r) }
+                        else if fl && (c & (mask >> 1)) == 0 { c ^ ((mask >> 1) + 1) }      // +0 <-> -0
+                        else if fl && r.below(2) == 0 { if r.below(2) == 0 { 0 } else { (mask >> 1) + 1 } }
+                        else { c }
+                    }).collect();
                     let f: fn($V, &str, &[u64]) -> Option<swz_gen::SwOut> = $with;
                     if let Some((bits, rty)) = f(v, &name, &rhs) {
                         v = <$V as TV>::from_bits(&bits);
